@@ -364,6 +364,65 @@ fn failures(ctx: &mut Ctx, conv: &Converter) {
     }
 }
 
+/// A later layer that takes spellings away from units (`precedence = "override"` replaces the lists it gives): the
+/// removed spellings are unknown units afterwards — converting or fitting them fails and leaves the quantity as it is —
+/// while the spellings that stay convert as before.
+fn removed_spellings(ctx: &mut Ctx) {
+    let layer = "[extend]\nprecedence = \"override\"\n[extend.units]\nl = { names = [\"litro\", \"litros\"] }\ngal = { names = [\"galón\", \"galones\"], symbols = [\"gln\"] }\ntbsp = { symbols = [\"tbsp\"] }\nminute = { names = [\"minute\"], symbols = [\"min\"], aliases = [] }\n";
+    let Some(conv) = toml::from_str::<cooklang::convert::UnitsFile>(layer).ok().and_then(|f| Converter::builder().with_units_file(cooklang::convert::UnitsFile::bundled()).ok()?.with_units_file(f).ok()?.finish().ok()) else {
+        ctx.harness_errors.push("C09: the override layer does not build".into());
+        return;
+    };
+    // (spelling, still known after the layer, a unit of the same quantity to convert to, expected amount of 2 <spelling> in it)
+    let table: [(&str, bool, &str, f64); 16] = [
+        ("liter", false, "ml", 0.0), ("litres", false, "ml", 0.0), ("litro", true, "ml", 2000.0), ("l", true, "ml", 2000.0), ("L", true, "ml", 2000.0),
+        ("gal", false, "l", 0.0), ("gallons", false, "l", 0.0), ("gln", true, "l", 2.0 * 3.785411784), ("galones", true, "l", 2.0 * 3.785411784),
+        ("tbs", false, "ml", 0.0), ("tbsp.", false, "ml", 0.0), ("tbsp", true, "ml", 2.0 * 14.78676478125), ("tablespoons", true, "ml", 2.0 * 14.78676478125),
+        ("minutes", false, "s", 0.0), ("mins", false, "s", 0.0), ("min", true, "s", 120.0),
+    ];
+    for (key, known, to, want) in table {
+        let q0: ScaledQuantity = Quantity::new(Value::Number(Number::Regular(2.0)), Some(key.to_string()));
+        for target in 0..3 {
+            let case = Case::new("removed_spelling", format!("2 {key} target{target}"), 0, "bundled+override layer");
+            ctx.evals += 1;
+            let mut q = q0.clone();
+            let res = crate::core::guarded(|| match target {
+                0 => q.convert(to, &conv),
+                1 => q.convert(System::Metric, &conv),
+                _ => q.fit(&conv),
+            });
+            match (known, res) {
+                (_, Err(p)) => ctx.panic_violation(&case, "convert", p),
+                // `fit` of a quantity it cannot handle may report success as long as it leaves the quantity alone
+                (false, Ok(Ok(()))) if target == 2 && q == q0 => {
+                    ctx.nontrivial(&case);
+                    ctx.count("removed_spellings_refused");
+                }
+                (false, Ok(Ok(()))) => ctx.violation(&case, "failure", "removed_spelling_still_converts", format!("`{key}` was taken away by the override layer, yet 2 {key} became {q}")),
+                (false, Ok(Err(_))) => {
+                    if q != q0 {
+                        ctx.violation(&case, "failure", "failed_conversion_mutated", format!("{q0:?} became {q:?}"));
+                    } else {
+                        ctx.nontrivial(&case);
+                        ctx.count("removed_spellings_refused");
+                    }
+                }
+                (true, Ok(r)) => {
+                    if target == 0 {
+                        let got = amount(q.value()).map(|a| a.0);
+                        if r.is_err() || !matches!(got, Some(g) if close(g, want, 1e-6, 1e-9)) {
+                            ctx.violation(&case, "failure", "kept_spelling_converts_wrongly", format!("2 {key} -> {to}: {r:?}, {q} (expected {want})"));
+                        } else {
+                            ctx.nontrivial(&case);
+                            ctx.count("kept_spellings_convert");
+                        }
+                    }
+                }
+            }
+        }
+    }
+}
+
 /// whole recipes through ScaledRecipe::convert
 fn recipes(ctx: &mut Ctx, conv: &Converter) {
     use crate::gen::recipe::{self as g, feat, GenOpts};
@@ -549,6 +608,7 @@ pub fn run(ctx: &mut Ctx) {
     if ctx.shard == 0 {
         table_agreement(ctx, &conv);
         failures(ctx, &conv);
+        removed_spellings(ctx);
     }
     // all ordered pairs of units, by every key of each
     let all: Vec<Arc<Unit>> = conv.all_units().map(|u| conv.find_unit(u.symbol()).unwrap()).collect();
